@@ -38,6 +38,7 @@ type PeerScript struct {
 	Fw         string            `json:"fw"`         // complete ;FW line or ""
 	PQ         string            `json:"pq"`         // secure login challenge ("" = none; master only)
 	HasPQ      bool              `json:"haspq"`      // send ;PQ even when the challenge is empty
+	PQFirst    bool              `json:"pqfirst"`    // the ;PQ line comes before the SID line (both orders occur among the handshake lines)
 	Prompt     string            `json:"prompt"`     // the master's prompt line, must end in ">"
 	Msgs       []PeerMsg         `json:"msgs"`       // what the peer has to send
 	Answers    map[string]string `json:"answers"`    // library MID -> answer token: + Y y - N n R r = L l H h !0 A0 a0
@@ -135,8 +136,11 @@ func (p *peer) handshake() (firstCmd string, err error) {
 		if sc.Fw != "" {
 			p.send(sc.Fw)
 		}
+		if sc.PQFirst && (sc.PQ != "" || sc.HasPQ) {
+			p.send(";PQ: " + sc.PQ)
+		}
 		p.send(sc.Sid)
-		if sc.PQ != "" || sc.HasPQ {
+		if !sc.PQFirst && (sc.PQ != "" || sc.HasPQ) {
 			p.send(";PQ: " + sc.PQ)
 		}
 		for i, c := range sc.Comments {
